@@ -4,10 +4,10 @@ import json, os
 VERIF = os.path.dirname(os.path.dirname(os.path.abspath(__file__)))
 
 CHECKS = {
- "C01": ("Runtime monitor on model_description / Parser.parse: every string of up to 4 (quick) / 5 (thorough) tokens over a 25-token alphabet is executed (exhaustive) and judged against an independent table-driven reference grammar, plus generated sentences with random whitespace/parentheses and character-level mutants; 'held' means no monitored execution violated the post-conditions.",
+ "C01": ("Runtime monitor on model_description / Parser.parse: every string of up to 4 (quick) / 5 (thorough) tokens over a 25-token alphabet is executed (exhaustive) and judged against an independent table-driven reference grammar, plus generated sentences with random whitespace/parentheses and character-level mutants; in accepted formulas without a formula-level '-' / '0', renaming one variable occurrence to an unused name must change the model (no token is ignored); 'held' means no monitored execution violated the post-conditions.",
          "Trusts the reference grammar fmon/ref/grammar.py (documented precedence table); says nothing about strings outside the alphabet and the generators.",
-         "runtime post-condition monitor with reference-grammar oracle + metamorphic shadow executions + token-conservation trace"),
- "C02": ("Runtime post-condition on model_description: all operator trees up to 3 leaves over 6 atoms and 4 leaves over 3 atoms (5 leaves over 2 atoms in thorough), embedded in every documented context (response, intercept literals, both sides of |, **n), plus random deeper trees, compared with an independent set-semantics reference evaluated on the reference AST.",
+         "runtime post-condition monitor with reference-grammar oracle + metamorphic shadow executions (whitespace, parentheses, full parenthesisation, single-variable renaming) + token-conservation trace"),
+ "C02": ("Runtime post-condition on model_description: all operator trees up to 3 leaves over 6 atoms and 4 leaves over 3 atoms (5 leaves over 2 atoms in thorough), embedded in every documented context (response, intercept literals at the head, in the middle and at the end of the right-hand side and of the effect side of |, both sides of |, **n), plus random deeper trees, compared with an independent set-semantics reference evaluated on the reference AST.",
          "Trusts fmon/ref/algebra.py as the reading of the statement; a case counts as a violation only if it is wrong under both the ordered and the set identity of terms.",
          "runtime post-condition monitor with executable reference model (set algebra) over exhaustively enumerated small operator trees"),
  "C03": ("Runtime post-condition on design_matrices for driver-made designs on replicated complete-factorial frames: all 5910 ordered families of up to three terms over {f,g,h,x} with and without intercept (quick), plus all 2^15 families over four two-level factors and sampled atom variants (C/T/S/bs/poly/scale) with shuffled factor order (thorough); full column rank and equality of spans are decided by SVD / projection residuals against an all-indicator reference coding.",
@@ -16,7 +16,7 @@ CHECKS = {
  "C04": ("Intrinsic runtime post-condition on every DesignMatrices built and every evaluate_new_data result: for each term the label -> expected column dictionary is rebuilt from the data frame alone (level indicators, products, group cell x effect) and every actual label/column pair, the label count and the product order are checked; driven by seeded random designs over all categorical dtype kinds, arities 1..4, group-specific terms and hostile level names, and by the repository's own tests (W0).",
          "Judged domain is the statement's (numeric variables / pointwise calls, treatment-coded factors); terms with Sum codings or multi-column transforms are counted as not judged; ambiguous candidate labels are skipped and counted.",
          "intrinsic runtime post-condition (label->column dictionary oracle built from the frame) on hooked design_matrices / evaluate_new_data"),
- "C05": ("Runtime post-condition on design_matrices for designs with a group part: (A) on any data, every row of every (e|g) block is zero outside the slot of its own group cell and the slot holds the effect columns (numeric effects = shadow design of `0 + e`, categorical effects = level indicators), one term per (effect term, grouping term) with the lme4 implicit intercept, cells sorted/lexicographic; (B) on fully crossed frames the stacked blocks of each grouping factor are linearly independent and span KhatriRao(indicators(g), model space of the effect expression). 25 effect expressions x 8 grouping expressions exhaustively, plus random combinations.",
+ "C05": ("Runtime post-condition on design_matrices for designs with a group part: (A) on any data, every row of every (e|g) block is zero outside the slot of its own group cell and the slot holds the effect columns (numeric effects = shadow design of `0 + e`, categorical effects = level indicators), one term per (effect term, grouping term) with the lme4 implicit intercept, cells sorted/lexicographic; (B) on fully crossed frames the stacked blocks of each grouping factor are linearly independent and span KhatriRao(indicators(g), model space of the effect expression). 29 effect expressions x 10 grouping expressions exhaustively, plus random combinations.",
          "(B) carries one known finding (group-coding-simplified), matched only where a clean re-implementation of the full coding rule disagrees with the simplified rule; all other inputs are judged. Numerical decisions as in C03.",
          "runtime post-condition monitor with block-structure oracle, shadow executions of the real code and linear-algebra span oracle"),
  "C06": ("Runtime post-condition on every evaluate_new_data of a common or group matrix: five shadow self-evaluations of the matrix's own training rows (random subset, permutation, repetition, single row, all rows of / lacking one level) must reproduce design_matrix[idx] with the same columns; plus fit-once trace on every stateful-transform instance and frozen-coding trace on every component. Driven by seeded random designs over stateful / nested / interacting transforms, C/T/S with references and levels=, ordered categoricals, operator-written formulas and group-specific terms, and by the repository's tests (advisory there).",
